@@ -173,7 +173,7 @@ def check_nf3(case):
     except Exception as e:
         res.failures.append(exc_failure('raises', e))
         return res
-    gaps, _ = _match(res, words, out, opts)
+    gaps, ends = _match(res, words, out, opts)
     stmt_first = {m['s'] for m in marks if m['k'] == 'stmt'}
     nclause = 0
     if gaps is not None:
@@ -194,6 +194,19 @@ def check_nf3(case):
             if ' \n' in g or '\t\n' in g or (i == len(gaps) - 1 and g != '' and g.strip('\n') != ''):
                 res.fail('nf3-trailing-blank', 'line', 'gap %r before %r has a blank at a line end; options %r' % (g, words[i][1][:20] if i < len(words) else '<end>', opts))
                 break
+        else:
+            # every line of the output, except line ends that lie inside a literal, quoted name or comment
+            protected = []
+            for (kind, wtext, *_), end in zip(words, ends):
+                if kind in ('str', 'qname', 'comment'):
+                    protected.append((end - len(wtext) - 2, end))
+            pos = 0
+            for line in out.split('\n'):
+                eol = pos + len(line)
+                if line[-1:] in (' ', '\t') and not any(a <= eol <= b for a, b in protected):
+                    res.fail('nf3-trailing-blank', 'line', 'output line %r ends in a blank; options %r' % (line[-30:], opts))
+                    break
+                pos = eol + 1
     depth = 0
     maxdepth = 0
     for l in clean:
@@ -272,11 +285,11 @@ def _nf2_hazard(tier):
 
 def _nf3(tier):
     san = HAZ_Q in excluded_hazards(ID)
-    return _fmt.script_cases(O.layout_options(require=['reindent'], allow=REINDENT_SUB), sanitize=san, max_statements=2, comments=8, inner=False)
+    return _fmt.script_cases(O.layout_options(require=['reindent'], allow=REINDENT_SUB), sanitize=san, max_statements=2, comments=8, inner=True)
 
 
 def _nf3_hazard(tier):
-    return _fmt.script_cases(O.layout_options(require=['reindent'], allow=REINDENT_SUB), sanitize=False, max_statements=2, comments=25, inner=False)
+    return _fmt.script_cases(O.layout_options(require=['reindent'], allow=REINDENT_SUB), sanitize=False, max_statements=2, comments=25, inner=True)
 
 
 LEGS = [Leg('nf1', check=check_nf1, strategy=_nf1, examples={'quick': 2500, 'thorough': 50000}),
